@@ -87,4 +87,19 @@ def parallel_runs(ctx, replay=None):
     return {"violations": viol, "disagreements": [], "coverage": {"rendezvous_runs": done, "rendezvous_nontrivial": nontriv}}
 
 
-explore, search, replay = make({"C10"}, extra=parallel_runs)
+def extras(ctx, replay=None):
+    from harness import retry_corr
+    if replay is not None:
+        if replay.get("replay_fn") == "retry_diff":
+            return retry_corr.retry_diff(ctx, replay=replay)
+        return parallel_runs(ctx, replay=replay)
+    a = parallel_runs(ctx)
+    b = retry_corr.retry_diff(ctx)
+    cov = dict(a.get("coverage", {}))
+    cov.update({"retry_" + k: v for k, v in b.get("coverage", {}).items() if k not in ("samples", "rule")})
+    return {"violations": a["violations"] + b["violations"], "disagreements": a["disagreements"] + b["disagreements"],
+            "coverage": cov}
+
+
+GEN = ["Engine", "Retry"]
+explore, search, replay = make({"C10"}, extra=extras)
